@@ -98,7 +98,8 @@ InitH(sc) ==
    setd  |-> {},                            \* set_data values waiting for the target's next step
    lastse |-> "",                           \* the simulator whose step returned last (rt_check reports about it)
    steps |-> {},                            \* <<sim, tiered time>> of every step begun (kept in debug mode only)
-   atT   |-> [t \in 0..sc.until |-> 0],     \* number of steps begun at integer time t (all simulators)
+   atT   |-> <<>>,                          \* number of steps begun at integer time t (all simulators): a function whose
+                                            \* domain are the times at which a step began (runs may reach large times)
    mal   |-> None,                          \* <<sim, what>> after a malformed reply
    fault |-> None,                          \* <<sim, kind>> after an injected simulator failure
    stops |-> [s \in Sids(sc) |-> 0],        \* stop/finalize calls received
@@ -281,7 +282,7 @@ RefSB(sc, h, ev) ==
                       !.delivI = IF DataOn(sc) THEN @ \cup UNION {{<<i, pi>> : pi \in EvCandsI(sc, h, i, tau)} : i \in evIn} ELSE @,
                       !.setd = @ \ SetdFor(h, s),
                       !.steps = IF DebugOn(sc) THEN @ \cup {<<s, tau>>} ELSE @,
-                      !.atT[t] = @ + 1],
+                      !.atT = IF t \in DOMAIN @ THEN [@ EXCEPT ![t] = @ + 1] ELSE @ @@ (t :> 1)],
       v |-> v]
 
 RefSE(sc, h, ev) ==
@@ -386,9 +387,11 @@ RefEND(sc, h, ev) ==
       \* (guardCount): the chain of at least maxloop weak hops that leads to the refused sub-step consists of steps
       \* performed at this integer time, so at least maxloop steps began at it ("sub-steps within one time step")
       overdue == \E s \in Sids(sc) : h.dem[s] # {} /\ OverLoop(sc, TMin(h.dem[s]))
+      inLoop == \E s \in Sids(sc) : h.lastd[s] # None /\ (\E i \in 2..Len(h.lastd[s]) : h.lastd[s][i] > 0)
+                                     /\ \A x \in Sids(sc) : h.lastd[x] = None \/ h.lastd[x][1] <= h.lastd[s][1]
       guardJust == \E s \in ev.names : h.dem[s] # {} /\ OverLoop(sc, TMin(h.dem[s]))
       guardCount == \E s \in ev.names : h.dem[s] # {} /\ OverLoop(sc, TMin(h.dem[s]))
-                                         /\ h.atT[TMin(h.dem[s])[1]] >= sc.maxloop
+                                         /\ (IF TMin(h.dem[s])[1] \in DOMAIN h.atT THEN h.atT[TMin(h.dem[s])[1]] ELSE 0) >= sc.maxloop
       v == IF h.fault # None THEN RefFaultEND(sc, h, ev)
            ELSE IF h.mal # None THEN
               Cond(ev.r # "ok", "C13_malformed_reply_accepted", <<h.mal, ev.r>>)
@@ -410,6 +413,10 @@ RefEND(sc, h, ev) ==
                 \* ... and if a simulator's next step is beyond the loop bound, the run had to end with the loop guard's
                 \* SimulationError naming it - not with some other exception (e.g. one raised while the message is built)
                 \o Cond(~(ev.cat = "other" /\ overdue), "C09_bound_exceeded_but_no_simulation_error_naming_the_simulator", <<ev.r, h.dem>>)
+                \* ... and a same-time loop that has not exceeded the bound is never interrupted: if the run dies of an internal
+                \* error while some simulator's last step was a sub-step > 0 of the time at which the run ended, a loop was cut short
+                \o Cond(~(ev.cat \in {"backwards", "already_progressed", "other"} /\ ~overdue /\ inLoop),
+                        "C09_loop_within_the_bound_interrupted_by_an_internal_error", <<ev.r, ev.cat, h.lastd>>)
   IN [h |-> h, v |-> v]
 
 \* Debug mode (World(debug=True)): the execution graph that mosaik records.  Its nodes are exactly the steps
